@@ -1,3 +1,5 @@
+\* quick exhaustive run: 2 threads, 3 calls (the first runs alone: SeqPrefix 1), 2 keys of one document, 4 configurations, any Put content;
+\* accounting clauses modulo the named deviations (BytesExactND, EmptyIsZeroND), everything else strictly
 CONSTANT Threads = {"t1", "t2"}
 CONSTANT Keys = {"k1", "k2"}
 CONSTANT CvKeys = {"k1"}
